@@ -162,8 +162,8 @@ class C09:
             "inference constructing instances, rule over a variable given by keyword only (expanded lazily during evaluation), a Predicate "
             "subclass that builds and evaluates a query of its own inside its own symbolic block, followed by another Predicate subclass) "
             "x dataset (0, 1, 2, 3 qualifying objects), each evaluated under ambient mode none / query / "
-            "rule on fresh objects, and (an / infer) with the results of ONE evaluation drawn partly outside and partly inside a block, in "
-            "both orders; the five outcomes (rows by object index, inferred instances by field identity, or the exception class) "
+            "rule / a query or rule block opened FOR ANOTHER QUERY (its expression on the expression stack) on fresh objects, and (an / infer) with the results of ONE evaluation drawn partly outside and partly inside a block, in "
+            "both orders; the seven outcomes (rows by object index, inferred instances by field identity, or the exception class) "
             "must coincide; non-trivial = at least one row or a MultipleSolutionFound outcome")
     explanation = ("C09_ambient is proved from the bracketing flags the translator reads from An.evaluate / The.evaluate on every run; tie = "
                    "the model predicts 'same as with no ambient mode', compared with the three observed outcomes")
@@ -182,7 +182,8 @@ class C09:
         # (every advance sees the mode the model gives for the ambient mode at that advance)
         both = f'show_mode ({q} None) ++ "+" ++ show_mode ({q} (Some MQuery))'
         return (f'Eval vm_compute in ("CASE {n} M " ++ String.concat " " (map (fun a => show_mode ({q} a)) [None; Some MQuery; Some MRule])'
-                f' ++ " " ++ {both} ++ " " ++ {both} ++ " S N N N N N").')
+                f' ++ " " ++ {both} ++ " " ++ {both} ++ " " ++ show_mode ({q} (Some MQuery)) ++ " " ++ show_mode ({q} (Some MRule))'
+                f' ++ " S N N N N N N N").')
 
     def split(self, s):
         m = re.match(r'M (.*?) S (.*)$', s)
@@ -192,7 +193,7 @@ class C09:
         # the model says which mode evaluation sees under each ambient mode; the implementation shows it through outcomes:
         # equal to the outcome under no ambient mode <=> evaluation saw no mode
         base = io.get('none')
-        seen = ['N' if io.get(a) == base else 'ambient' for a in ('none', 'query', 'rule', 'split_oi', 'split_io')]
+        seen = ['N' if io.get(a) == base else 'ambient' for a in ('none', 'query', 'rule', 'split_oi', 'split_io', 'query_q', 'rule_q')]
         return seen, seen
 
     def tie_view(self, case, mo):
